@@ -26,4 +26,27 @@ def corpus(pid, tier, seed):
     except ImportError:
         return out
     out += proggen.programs(pid, tier, seed)
+    if pid in ("C03", "C06"):
+        out += exprgen_programs(tier, seed)
+    return out
+
+
+def exprgen_programs(tier, seed):
+    """boolean programs  return <tree>  for the trees enumerated by TLC from spec/ExprGen.tla (predicates: the
+    natural inputs of the synthesis checks, in particular of the xor-oracle property)"""
+    import random
+    from .common import Scratch
+    from .drivers.c04 import gen_trees
+    from .drivers.mcsynth import program_of
+
+    rng = random.Random(seed)
+    with Scratch("exprgen") as sc:
+        trees, _ = gen_trees(sc, 4 if tier == "quick" else 5, 150 if tier == "quick" else 1500, 9)
+    rng.shuffle(trees)
+    trees = trees[: (350 if tier == "quick" else 5000)]
+    out = []
+    for k, t in enumerate(trees):
+        out.append({"src": program_of(t, k, "ret"), "origin": "ExprGen-program"})
+        if k % 4 == 0:
+            out.append({"src": program_of(t, k, "var"), "origin": "ExprGen-program"})
     return out
